@@ -6,5 +6,5 @@ CONSTANTS
   Vals = {"1", "2", "NaN", "+Inf", "-Inf"}
   MaxSamples = 9
   EmitMode = "all"
-INVARIANTS ExactlyInput ExactWhenNonNegative Aligned OnlyInput RejectedWhole EmitState
+INVARIANTS ExactlyInput AlignIsFloor Aligned OnlyInput RejectedWhole EmitState
 CHECK_DEADLOCK FALSE
